@@ -41,6 +41,12 @@ fn access_hook(_table: usize, slot: usize, write: bool) {
     if w == 0 {
         return;
     }
+    if slot == prefix_trie::verif::COUNTER_SLOT {
+        // the element counter is an atomic shared by all views: every operation on it is a
+        // scheduling point, but it is not part of the per-node footprints
+        shuttle::thread::yield_now();
+        return;
+    }
     LOG.with(|l| l.borrow_mut().push((w, slot, write)));
     if write || YIELD_ON_READS.with(|y| *y.borrow()) {
         shuttle::thread::yield_now();
@@ -58,9 +64,11 @@ enum Body {
     ValueThenIter,
     /// remove() only
     Remove,
+    /// set(v) only
+    Set,
 }
 
-const BODIES: [Body; 4] = [Body::IterWrite, Body::SetRemove, Body::ValueThenIter, Body::Remove];
+const BODIES: [Body; 5] = [Body::IterWrite, Body::SetRemove, Body::ValueThenIter, Body::Remove, Body::Set];
 
 fn run_body<P: PType>(mut v: TrieViewMut<P, u32>, body: Body, tag: u32) {
     match body {
@@ -85,6 +93,9 @@ fn run_body<P: PType>(mut v: TrieViewMut<P, u32>, body: Body, tag: u32) {
         }
         Body::Remove => {
             let _ = v.remove();
+        }
+        Body::Set => {
+            let _ = v.set(tag);
         }
     }
 }
@@ -278,9 +289,9 @@ fn explore_one<P: PType>(base: &PrefixMap<P, u32>, shape: Shape, bodies: Vec<Bod
 fn body_sets(shape: Shape, full: bool) -> Vec<Vec<Body>> {
     if !full {
         return match shape {
-            Shape::Split2 => vec![vec![Body::IterWrite, Body::SetRemove], vec![Body::SetRemove, Body::IterWrite], vec![Body::ValueThenIter, Body::Remove], vec![Body::SetRemove, Body::SetRemove]],
-            Shape::Split3L | Shape::Split3R => vec![vec![Body::IterWrite, Body::SetRemove, Body::ValueThenIter]],
-            Shape::UnionPlusOne => vec![vec![Body::SetRemove]],
+            Shape::Split2 => vec![vec![Body::IterWrite, Body::Set], vec![Body::Set, Body::Remove], vec![Body::Remove, Body::Remove], vec![Body::Set, Body::Set], vec![Body::ValueThenIter, Body::Remove]],
+            Shape::Split3L | Shape::Split3R => vec![vec![Body::Set, Body::Remove, Body::IterWrite]],
+            Shape::UnionPlusOne => vec![vec![Body::Remove]],
         };
     }
     match shape {
